@@ -984,9 +984,9 @@ func execCase(run *kit.Run, c Case, verbose bool) {
 		for _, f := range c.Faults {
 			run.Count("e2e/kind/" + kindNames[f.Kind])
 		}
-		term := fmt.Sprintf("CE2E %s %s %s %s %s %s %s %s %s %s %s %s %s %s", kit.ZI(c.ID), kit.ZI(constructCode(c.Construct)), kit.Bool(c.Conf.Custom),
+		term := fmt.Sprintf("CE2E %s %s %s %s %s %s %s %s %s %s %s %s %s %s %s", kit.ZI(c.ID), kit.ZI(constructCode(c.Construct)), kit.Bool(c.Conf.Custom),
 			coqConf(c.Conf), kit.ZI(c.Workers), kit.ZI(c.N), coqFaults(c.Faults),
-			kit.Bool(o.Nil), kit.BoolList(o.Found), kit.BoolList(o.Flags), kit.ZI(o.Processed), kit.Bool(o.Once), kit.Bool(o.Prefix), kit.Bool(o.Crash != ""))
+			kit.Bool(o.Nil), kit.BoolList(o.Found), kit.BoolList(o.Flags), kit.ZI(o.Processed), kit.Bool(o.Once), kit.Bool(o.Prefix), kit.Bool(o.Crash != ""), kit.ZListI(o.Outputs))
 		run.Case(c.ID, c, term, fmt.Sprintf("e|%s|%d|%d|%v|%v", c.Construct, c.Workers, c.N, c.Conf, c.Faults), len(c.Faults) > 0)
 	}
 }
